@@ -1,5 +1,5 @@
 // C36 correspondence: the real errorHandler (directly and behind the whole proxy chain), forwardTCP and
-// httpConnect are driven with every dial error class under stacks of fmt %w / net.OpError wrappers by a scripted
+// httpConnect are driven with every dial error class under stacks of fmt %w / net.OpError / url.Error wrappers by a scripted
 // tun.Server; what the caller receives (HTTP status, status frames, close, relayed bytes) is printed per case.
 package main
 
@@ -13,6 +13,7 @@ import (
 	"net"
 	"net/http"
 	"net/http/httptest"
+	"net/url"
 	"os"
 	"strings"
 	"sync"
@@ -72,13 +73,19 @@ func mkErr(tok string) error {
 		return nil
 	}
 	parts := strings.Split(tok, ".")
-	e := leafErr(parts[len(parts)-1])
-	for i := len(parts) - 2; i >= 0; i-- {
-		switch parts[i] {
+	return wrapErr(parts[:len(parts)-1], leafErr(parts[len(parts)-1]))
+}
+
+// wrapErr puts the wrappers (outermost first) around e: f = fmt.Errorf %w, o = *net.OpError, u = *url.Error.
+func wrapErr(wraps []string, e error) error {
+	for i := len(wraps) - 1; i >= 0; i-- {
+		switch wraps[i] {
 		case "f":
 			e = fmt.Errorf("layer %d: %w", i, e)
 		case "o":
 			e = &net.OpError{Op: "dial", Net: "tcp", Err: e}
+		case "u":
+			e = &url.Error{Op: "Get", URL: "https://app.example.com/x", Err: e}
 		}
 	}
 	return e
@@ -90,7 +97,8 @@ type script struct {
 	dialErr error
 	mkConn  func() net.Conn // called when dialErr == nil
 	dials   int
-	block   bool // wait for the context to end and return its error
+	block   bool     // wait for the context to end and return its error ...
+	blockWr []string // ... inside these wrappers (outermost first), the way a transport reports "opening stream: %w"
 }
 
 func (s *script) Identity() *protocol.Node { return &protocol.Node{Address: "gateway.internal:1"} }
@@ -100,7 +108,7 @@ func (s *script) DialClient(ctx context.Context, link *protocol.Link) (net.Conn,
 	s.mu.Unlock()
 	if s.block {
 		<-ctx.Done()
-		return nil, ctx.Err()
+		return nil, wrapErr(s.blockWr, ctx.Err())
 	}
 	if s.dialErr != nil {
 		return nil, s.dialErr
@@ -172,12 +180,13 @@ func doHTTP(mode, tok string) {
 			req := httptest.NewRequest("GET", fmt.Sprintf("https://app%d.example.com/x", hostSeq), nil)
 			req.Proto, req.ProtoMajor, req.ProtoMinor = "HTTP/2.0", 2, 0
 			req.RemoteAddr = "198.51.100.7:4711"
-			chainScript.dialErr, chainScript.block = e, false
-			if mode == "chain-live" { // the dial really blocks until the request deadline
+			chainScript.dialErr, chainScript.block, chainScript.blockWr = e, false, nil
+			if mode == "chain-live" { // the dial really blocks until the request deadline; the token's leaf is `dl`
 				ctx, cancel := context.WithTimeout(req.Context(), 30*time.Millisecond)
 				defer cancel()
 				req = req.WithContext(ctx)
-				chainScript.block = true
+				parts := strings.Split(tok, ".")
+				chainScript.block, chainScript.blockWr = true, parts[:len(parts)-1]
 			}
 			chainHandler.ServeHTTP(tw, req)
 		}
@@ -461,7 +470,7 @@ func stacks(maxDepth int) []string {
 	for d := 0; d < maxDepth; d++ {
 		var next []string
 		for _, p := range prev {
-			next = append(next, p+"f.", p+"o.")
+			next = append(next, p+"f.", p+"o.", p+"u.")
 		}
 		out = append(out, next...)
 		prev = next
@@ -471,7 +480,7 @@ func stacks(maxDepth int) []string {
 
 func main() {
 	r = hlib.Start()
-	r.Rule = "cases = (error value, protocol path): error values are every stack of fmt %w / net.OpError wrappers (depth <= 3 quick, <= 6 + random deeper thorough) around each of 11 innermost errors (not-found, not-connected, no-direct, canceled, EOF, context deadline, net timeout, os deadline, net non-timeout, other, unexpected EOF); paths: real errors.Is/IsTimeout/IsNoDirect, errorHandler directly, errorHandler behind chi+ReverseProxy+Transport+overlayDialer, forwardTCP (failing drain / hostname / dial, success with a talking client), httpConnect (bad address, dial error, silent or failing client, each client status, with/without Hijack); non-trivial = distinct line"
+	r.Rule = "cases = (error value, protocol path): error values are every stack of fmt %w / net.OpError / url.Error wrappers (depth <= 3 quick, <= 6 + random deeper thorough) around each of 11 innermost errors (not-found, not-connected, no-direct, canceled, EOF, context deadline, net timeout, os deadline, net non-timeout, other, unexpected EOF); paths: real errors.Is/IsTimeout/IsNoDirect, errorHandler directly, errorHandler behind chi+ReverseProxy+Transport+overlayDialer (scripted dial error; and a dial that really blocks until the request deadline and reports it bare or wrapped), forwardTCP (failing drain / hostname / dial, success with a talking client), httpConnect (bad address, dial error, silent or failing client, each client status, with/without Hijack); non-trivial = distinct line"
 	rng := hlib.NewRng(r.Seed)
 	if r.Replay != "" {
 		for _, t := range r.ReplayLines() {
@@ -507,9 +516,12 @@ func main() {
 		n := depth + 1 + rng.Intn(6)
 		s := ""
 		for j := 0; j < n; j++ {
-			if rng.Intn(3) == 0 {
+			switch rng.Intn(5) {
+			case 0:
 				s += "o."
-			} else {
+			case 1:
+				s += "u."
+			default:
 				s += "f."
 			}
 		}
@@ -524,6 +536,9 @@ func main() {
 	}
 	for i := 0; i < 3; i++ {
 		doHTTP("chain-live", "dl")
+	}
+	for _, s := range stacks(2)[1:] { // the live deadline, reported the way transports do ("opening stream: %w", OpError, url.Error)
+		doHTTP("chain-live", s+"dl")
 	}
 	// stream paths
 	var some []string
